@@ -2,7 +2,7 @@
    codes fit the width schedule (enc_codes_fit), and the composition with the bit-level half (uncompress_compress_from). *)
 From Coq Require Import ZArith List Lia Bool FMapPositive.
 Import ListNotations.
-From LX Require Import Model.Lzw.
+From LX Require Import Generated.Consts Model.Lzw.
 Local Open Scope Z_scope.
 Ltac Zify.zify_post_hook ::= Z.div_mod_to_equations.
 
@@ -531,9 +531,10 @@ Theorem uncompress_compress_from : forall p clears l,
   (forall codes, sched_fit p (w_init p) codes = true ->
      let bits := pack p (w_init p) 0 codes in let payload := bytes_of_bits (S (length bits)) bits in
      unpack (2 * length (bits_of_bytes payload) + 2) p (w_init p) 0 (bits_of_bytes payload) = codes) ->
-  zparams_okb p = true -> bytesb l = true -> uncompress (compress p clears l) = Some l.
+  zparams_okb p = true -> bytesb l = true -> Z.of_nat (length l) < Consts.C_LIBXMP_DEPACK_LIMIT ->
+  uncompress (compress p clears l) = Some l.
 Proof.
-  intros p clears l H Hp Hb.
+  intros p clears l H Hp Hb Hlim.
   pose proof (H _ (enc_codes_fit p clears l Hp Hb)) as E. cbv zeta in E.
   destruct (dec_enc_codes p clears l Hp Hb) as [s [Hd Ho]].
   pose proof (okb_range p Hp) as Hr.
@@ -541,7 +542,8 @@ Proof.
   change (31 =? 31) with true. change (157 =? 157) with true. cbn [andb negb].
   rewrite (header_params p Hp).
   destruct (Z.ltb_spec (z_maxbits p) 9); [lia|]. destruct (Z.ltb_spec 16 (z_maxbits p)); [lia|]. cbn [orb].
-  rewrite E. rewrite Hd. rewrite rev_append_rev, app_nil_r. rewrite Ho. reflexivity.
+  rewrite E. rewrite Hd. cbv zeta. rewrite rev_append_rev, app_nil_r. rewrite Ho.
+  destruct (Z.leb_spec Consts.C_LIBXMP_DEPACK_LIMIT (Z.of_nat (length l))); [lia|]. reflexivity.
 Qed.
 
 Print Assumptions dec_enc_codes.
